@@ -459,6 +459,72 @@ func importRules(repo string) (string, error) {
 		}
 	}
 
+	// ---------------- extractImports ----------------
+	// for scanner.Scan() { if bytes.HasPrefix(scanner.Bytes(), importStmtPrefix) { importsInput.Write(..); importsInput.WriteByte('\n') } }
+	// with var importStmtPrefix = []byte("import "): every line with the prefix, wherever it stands.
+	extractAll := false
+	if ex := irFindFunc(pf.file, "extractImports"); ex != nil {
+		prefixOK := false
+		for _, d := range pf.file.Decls {
+			gd, ok := d.(*ast.GenDecl)
+			if !ok || gd.Tok != token.VAR {
+				continue
+			}
+			for _, sp := range gd.Specs {
+				vs, ok := sp.(*ast.ValueSpec)
+				if !ok || len(vs.Names) != 1 || vs.Names[0].Name != "importStmtPrefix" || len(vs.Values) != 1 {
+					continue
+				}
+				if c, ok := vs.Values[0].(*ast.CallExpr); ok && len(c.Args) == 1 {
+					if l, ok := c.Args[0].(*ast.BasicLit); ok && l.Value == `"import "` {
+						prefixOK = true
+					}
+				}
+			}
+		}
+		nLoops, loopOK := 0, false
+		for _, st := range ex.Body.List {
+			fs, ok := st.(*ast.ForStmt)
+			if !ok {
+				continue
+			}
+			nLoops++
+			if fs.Init != nil || fs.Post != nil || len(fs.Body.List) != 1 {
+				continue
+			}
+			cond, ok := fs.Cond.(*ast.CallExpr)
+			if !ok || len(selChain(cond.Fun)) != 2 || selChain(cond.Fun)[1] != "Scan" {
+				continue
+			}
+			is, ok := fs.Body.List[0].(*ast.IfStmt)
+			if !ok || is.Init != nil || is.Else != nil {
+				continue
+			}
+			hp, ok := is.Cond.(*ast.CallExpr)
+			if !ok || !irChainIs(hp.Fun, "bytes", "HasPrefix") || len(hp.Args) != 2 || !isIdent(hp.Args[1], "importStmtPrefix") {
+				continue
+			}
+			if a0, ok := hp.Args[0].(*ast.CallExpr); !ok || len(selChain(a0.Fun)) != 2 || selChain(a0.Fun)[1] != "Bytes" {
+				continue
+			}
+			// the body only writes (no break / return / continue / nested control flow)
+			writes, other := 0, 0
+			for _, b := range is.Body.List {
+				if es, ok := b.(*ast.ExprStmt); ok {
+					if c, ok := es.X.(*ast.CallExpr); ok {
+						if ch := selChain(c.Fun); len(ch) == 2 && strings.HasPrefix(ch[1], "Write") {
+							writes++
+							continue
+						}
+					}
+				}
+				other++
+			}
+			loopOK = writes == 2 && other == 0
+		}
+		extractAll = prefixOK && loopOK && nLoops == 1
+	}
+
 	var sb strings.Builder
 	sb.WriteString("(* GENERATED by vt ImportRules from pkg/parse/parse.go, pkg/parse/utils.go -- do not edit *)\n")
 	sb.WriteString("From Coq Require Import List.\nImport ListNotations.\nRequire Import Verif.Imports.Rules.\n")
@@ -475,6 +541,7 @@ func importRules(repo string) (string, error) {
 	fmt.Fprintf(&sb, "  flatten_dedup_by_index := %s;\n", irBool(dedup))
 	fmt.Fprintf(&sb, "  flatten_preorder := %s;\n", irBool(preorder))
 	fmt.Fprintf(&sb, "  flatten_order := %s;\n", dir)
-	fmt.Fprintf(&sb, "  index_ops := [%s]\n|}.\n", strings.Join(ops, "; "))
+	fmt.Fprintf(&sb, "  index_ops := [%s];\n", strings.Join(ops, "; "))
+	fmt.Fprintf(&sb, "  extract_every_import_line := %s\n|}.\n", irBool(extractAll))
 	return sb.String(), nil
 }
